@@ -72,6 +72,7 @@ type Contract struct {
 	HasModifies bool
 	Loops       map[int]*LoopSpec
 	Asserts     []AssertSpec
+	Inputs      []AssertSpec // assumptions about data read from external input (listed as entry preconditions)
 	Sends       []AssertSpec
 	Used        bool
 }
@@ -92,7 +93,7 @@ type ContractSet struct {
 	Files   []string
 }
 
-var kwRe = regexp.MustCompile(`^(define|func|trusted|inline|ghost|requires|ensures|modifies|loop|invariant|decreases|assert|sends)\b`)
+var kwRe = regexp.MustCompile(`^(define|func|trusted|inline|ghost|requires|ensures|modifies|loop|invariant|decreases|assert|assume-input|sends)\b`)
 
 func splitTop(s string, sep byte) []string {
 	var out []string
@@ -304,7 +305,7 @@ func (cs *ContractSet) loadFile(file string) error {
 					return fail(err)
 				}
 				curLoop.Decreases = e
-			case "assert", "sends":
+			case "assert", "sends", "assume-input":
 				// LABEL name: expr ; label is first token (may contain '#')
 				fs := strings.SplitN(st.text, " ", 2)
 				if len(fs) != 2 {
@@ -331,6 +332,8 @@ func (cs *ContractSet) loadFile(file string) error {
 				}
 				if st.kw == "assert" {
 					cur.Asserts = append(cur.Asserts, as)
+				} else if st.kw == "assume-input" {
+					cur.Inputs = append(cur.Inputs, as)
 				} else {
 					cur.Sends = append(cur.Sends, as)
 				}
